@@ -24,7 +24,7 @@ RULE = (
     "per-ligand bond lengths from the radii, distinct or repeated ligand "
     "elements, noise up to 0.15 A, atoms listed in a drawn order (centre "
     "not first), optional spectator fragment; (b) ETKDG-embedded organic "
-    "molecules (when RDKit generators are available); (c) every "
+    "molecules from the constructive RDKit generator; (c) every "
     "single-frame XYZ file of the repository's tests and examples; (d) "
     "reactant/product/TS triples from those files. Each is moved by a drawn "
     "proper rotation (unit quaternion), translation up to +-50 A, atom "
@@ -163,6 +163,23 @@ def base_geometries(case):
                 for p in case["paths"]]
     if k == "raw":
         return [(case["elements"], [tuple(c) for c in case["coords"]])]
+    if k == "smiles":
+        from rdkit import Chem
+        from rdkit.Chem import AllChem
+        from vp import rdgen
+        mol = rdgen.mol_from_smiles(case["smiles"])
+        if mol is None:
+            raise HarnessError("unparsable SMILES")
+        try:
+            cid = AllChem.EmbedMolecule(mol, randomSeed=int(case["embed_seed"]))
+        except Exception:
+            cid = -1
+        if cid != 0:
+            return [None]
+        conf = mol.GetConformer()
+        return [([a.GetAtomicNum() for a in mol.GetAtoms()],
+                 [tuple(conf.GetAtomPosition(i))
+                  for i in range(mol.GetNumAtoms())])]
     raise HarnessError(k)
 
 
@@ -367,6 +384,13 @@ def moved_geometries(case, geos):
 
 def check_move(ctx, case):
     geos = base_geometries(case)
+    if geos == [None]:
+        ctx.exclude("embedding-failed")
+        return None
+    if case["kind"] == "smiles":
+        n = len(geos[0][0])
+        if sorted(case["perm"]) != list(range(n)):
+            raise HarnessError("perm does not fit the embedded molecule")
     for ge in geos:
         if ge is not None:
             why = margins(*ge)
@@ -627,16 +651,29 @@ def gen_file(tp):
             "motions": [_motion(tp)], "mirror": tp.chance(90)}
 
 
+def gen_smiles(tp):
+    from vp import rdgen
+    smi = rdgen.organic_smiles(tp, max_heavy=8) or "C[C@H](F)Cl"
+    mol = rdgen.mol_from_smiles(smi)
+    n = mol.GetNumAtoms()
+    return {"kind": "smiles", "smiles": smi,
+            "embed_seed": 1 + tp.below(10**6), "perm": tp.shuffle(range(n)),
+            "motions": [_motion(tp)], "mirror": tp.chance(90)}
+
+
 def gen(data: bytes):
     tp = S.Tape(data)
-    if tp.chance(70):
+    k = tp.weighted([3, 2, 6])
+    if k == 0:
         return gen_file(tp)
+    if k == 1:
+        return gen_smiles(tp)
     return gen_template(tp)
 
 
 def shrink(case):
     n = len(case.get("perm", []))
-    if case["kind"] in ("template", "file", "triple"):
+    if case["kind"] in ("template", "file", "triple", "smiles"):
         ident = list(range(n))
         if case["perm"] != ident:
             yield {**case, "perm": ident}
